@@ -119,7 +119,18 @@ func propC07(c *Ctx) int {
 		n = 8
 	}
 	locationContractJobs(c, n)
+	for v := int64(0); v <= 1; v++ {
+		c.RunJob(Job{Name: fmt.Sprintf("include trace variant=%d", v), Pkg: "core", Fn: "HIncludeTrace", Params: map[string]int64{"variant": v},
+			Stubs: []string{"rune"}, PanicIsViolation: true, MaxPaths: 100000, Timeout: 30 * time.Minute, MustReach: []string{"trace"}})
+	}
+	// every error of the build: file in the project, index inside the file (rides on the C01 harnesses)
+	for _, pre := range []int64{0, 9, 18, 27, 45, 46, 48, 56, 58} {
+		c.RunJob(Job{Name: fmt.Sprintf("error location prefix#%d +2B", pre), Pkg: "core", Fn: "HBuild", Params: map[string]int64{"n": 2, "pre": pre},
+			Stubs: []string{"rune"}, PanicIsViolation: false, MaxPaths: 2000000, Timeout: 30 * time.Minute, AllowDrops: []string{"on symbolic operand"}})
+	}
 	return c.Finish("model_checking", []string{
+		"include trace: root.jst with two INCLUDEs (targets symbolic over {a,b}), a and b include c at different lines; error raised in c during scanning (live stack) and after scanning (directive include tracer): the rendered trace must be [error file:line, includer:line of its INCLUDE, root:line of the INCLUDE followed]",
+		"error location of the whole build: 2 arbitrary bytes after 9 witness prefixes with the REAL NewLocation (no contract stub): File inside the project, Index <= len(File)",
 		fmt.Sprintf("bound: file content <= %d arbitrary bytes, every index 0..len+2, one of three line-ending conventions (LF only / CRLF only / CR only); lines longer than 200 bytes (truncated quote) are outside the bound", n),
 		"reference line/column/quote computed in the harness (harness/jerr/zz_verif_c07.go): line = 1 + terminators before the index, column = bytes since the line start + 1, quote = the line without terminator, leading blanks dropped",
 	}, map[string]interface{}{})
@@ -142,7 +153,10 @@ func propC14(c *Ctx) int {
 	c.RunJob(Job{Name: "include graph 3 files", Pkg: "core", Fn: "HIncludeGraph", Params: map[string]int64{"files": 3},
 		Stubs: []string{"loc", "rune"}, PanicIsViolation: true, MaxPaths: 2000000, Timeout: 30 * time.Minute,
 		MustReach: []string{"graph-accepted", "graph-cycle", "graph-missing", "graph-dir"}})
+	c.RunJob(Job{Name: "include sub-directories", Pkg: "core", Fn: "HIncludeDirs", Stubs: []string{"loc", "rune"}, PanicIsViolation: true, MaxPaths: 1000, Timeout: 10 * time.Minute,
+		MustReach: []string{"dirs-ok", "dirs-missing"}})
 	return c.Finish("model_checking", []string{
+		"nested directories: root includes a/x and b/y (order symbolic), both include \"t\"; a/t exists, b/t exists or not (symbolic), a decoy t sits next to the root: resolution must be relative to the including file",
 		fmt.Sprintf("bounds: INCLUDE parameter of <= %d arbitrary bytes (all 256 values) for the name check alone, <= %d bytes through scanner + processInclude + virtual file system; include graphs: root with two INCLUDEs + 3 files with one INCLUDE each, targets over {a,b,c,directory,missing,none}", un, nn),
 		"file system = virtual (every path handed to os.Stat/os.ReadFile is logged symbolically and asserted to stay inside the including file's directory); symlinks, case-folding file systems and Windows separators are outside the claim",
 		"path/filepath.Join/Dir/Clean are executed from the standard library's own SSA",
